@@ -159,3 +159,53 @@ Proof. exact @solver_gen_eq_In. Qed.
 
 Print Assumptions C04_global_graph_helpers_regenerated.
 Print Assumptions C04_solver_neighbourhoods_regenerated.
+
+(* ------------------------------------------------------------------------------------------------------------
+   Extension (CFG construction regenerated): theorems from Lemmas/CfgGenLemmas.v about Gen/CfgGen.v, the
+   translation of parse_teal.py's first/second pass, create_bb, fourth pass, identify_subroutine_blocks and
+   the pruning of unreachable blocks *)
+From Coq Require Import String List NArith ZArith Bool Arith.
+From Tealer Require Import Tables Syntax Parse Cfg KeysGen CfgGen CfgLemmas SubLemmas CfgGenLemmas.
+
+(* the regenerated CFG construction computes the hand-written one, for every program *)
+Theorem C04_cfg_gen_eq :
+      forall p : prog, build_gen p = build_blocks p.
+Proof. exact @build_gen_eq. Qed.
+
+(* the regenerated basic-block pass partitions the instruction list into non-empty consecutive blocks and leaves successor links untouched *)
+Theorem C04_create_bb_gen_partition :
+      forall (p : list ins) (ih : ins_heap) (all_bbs : list nat) (bh : block_heap) (ih' : ins_heap),
+       (forall k : nat, k < Datatypes.length p -> ins_attr_next ih k = ins_next p k) ->
+       p <> nil ->
+       create_bb_gen p (seq 0 (Datatypes.length p)) nil nil ih = Some (all_bbs, bh, ih') ->
+       concat (map b_ins bh) = seq 0 (Datatypes.length p) /\
+       all_bbs = seq 0 (Datatypes.length bh) /\
+       (forall b : block, In b bh -> b_ins b <> nil) /\ map io_next ih' = map io_next ih.
+Proof. exact @create_bb_gen_partition. Qed.
+
+(* the regenerated first and second pass: symmetric prev/next links that agree with ins_next, or an unresolved label *)
+Theorem C04_passes_gen_spec :
+      forall p : prog,
+       match passes_gen p with
+       | Some ih =>
+           Datatypes.length ih = Datatypes.length p /\
+           ih_sym ih /\ (forall k : nat, k < Datatypes.length p -> ins_attr_next ih k = ins_next p k)
+       | None => exists k : nat, k < Datatypes.length p /\ ins_next p k = None
+       end.
+Proof. exact @passes_gen_spec. Qed.
+
+(* block graph produced by the regenerated construction is well formed *)
+Theorem C04_cfg_gen_wf :
+      forall (p : prog) (bh : block_heap), build_gen p = Some bh -> wf_blocks bh.
+Proof. exact @build_gen_wf. Qed.
+
+(* construction is total once the block pass succeeds on a non-empty program *)
+Theorem C04_build_blocks_total :
+      forall (p : prog) (bs : list rawblock), create_bb p = Some bs -> p <> nil -> build_blocks p <> None.
+Proof. exact @build_blocks_total. Qed.
+
+Print Assumptions C04_cfg_gen_eq.
+Print Assumptions C04_create_bb_gen_partition.
+Print Assumptions C04_passes_gen_spec.
+Print Assumptions C04_cfg_gen_wf.
+Print Assumptions C04_build_blocks_total.
